@@ -230,3 +230,20 @@ func verifYield(point string, cl *Client) {
 		f(point, cl)
 	}
 }
+
+// VerifOutboundAliases renders the client's outbound topic alias table canonically ("" when empty):
+// an alias is handed out even when the message is then dropped, which no written byte shows.
+func (cl *Client) VerifOutboundAliases() string {
+	a := cl.State.TopicAliases.Outbound
+	if a == nil {
+		return ""
+	}
+	a.RLock()
+	defer a.RUnlock()
+	var out []string
+	for t, i := range a.internal {
+		out = append(out, fmt.Sprintf("%d:%s", i, verifHex(t)))
+	}
+	sort.Strings(out)
+	return strings.Join(out, ",")
+}
